@@ -375,6 +375,19 @@ def _(rng, t, i):
 def _(rng, t, i): t[i] = t[i][:-1] + b'${x"'; return t
 @edit('macro-wrong-context', 'maildir_path')
 def _(rng, t, i): t[i] = t[i][:-1] + b'${path}"'; return t
+# ... directly after an action string that spells the same (where ${path} is legal and stays unexpanded): what a string means depends on
+# where it stands, not on what was expanded just before it
+@edit('macro-wrong-context-after-same-action-string', 'maildir_path')
+def _(rng, t, i):
+    S = rng.choice([b'"${path}"', b'"/m/${path}"', b'"~/${path}.d"'])
+    t[i] = S
+    return [b'maildir', b'"/nonexistent-a"', b'{', b'match', b'all', rng.choice([b'exec', b'move', b'label']), S, b'}'] + t
+@edit('macro-wrong-context-in-condition-after-same-action-string', 'kw_maildir')
+def _(rng, t, i):
+    S = rng.choice([b'"${path}"', b'"x${path}y"'])
+    cond = rng.choice([[b'header', S, b'/./'], [b'isdirectory', S], [b'command', b'{', b'"true"', S, b'}']])
+    return t + [b'maildir', b'"/nonexistent-b"', b'{', b'match', b'header', b'"X-Nope"', b'/./', b'exec', b'{', b'"true"', S, b'}',
+                b'match', b'!'] + cond + [b'move', b'"/nonexistent-c"', b'}']
 @edit('macro-without-equals', 'macro_name')
 def _(rng, t, i): t[i + 1] = rng.choice([b'', b'#c\n=', b':']); return t
 @edit('tilde-path-too-long', 'maildir_path')
